@@ -28,7 +28,8 @@ EXTENDS Naturals, Sequences, FiniteSets, TLC
 CONSTANTS MaxTicks
 
 (* ---- methods: node 1 is the program; Kind, Parent, Kids ------------------------------------------------------------ *)
-P(kind, parent, kids) == [kind |-> kind, parent |-> parent, kids |-> kids]
+P(kind, parent, kids) == [kind |-> kind, parent |-> parent, kids |-> kids, name |-> ""]
+PN(kind, parent, kids, name) == [kind |-> kind, parent |-> parent, kids |-> kids, name |-> name]      \* Macro / Call macro
 Programs ==
   << \* 1: Mark; Block(Mark, End block); Mark
      << P("prog", 0, <<2, 3, 6>>), P("mark", 1, <<>>), P("block", 1, <<4, 5>>), P("mark", 3, <<>>), P("end", 3, <<>>), P("mark", 1, <<>>) >>,
@@ -50,7 +51,42 @@ Programs ==
         P("end", 2, <<>>), P("mark", 1, <<>>) >>,
      \* 8: Block(Watch(End block), Alarm(Mark)); Mark                  watch and alarm fire together, the watch ends the block
      << P("prog", 0, <<2, 7>>), P("block", 1, <<3, 5>>), P("watch", 2, <<4>>), P("end", 3, <<>>), P("alarm", 2, <<6>>), P("mark", 5, <<>>),
-        P("mark", 1, <<>>) >> >>
+        P("mark", 1, <<>>) >>,
+     \* 9: Alarm(Block(Mark, End block), Mark); Mark; Mark             a block inside a repeating alarm body
+     << P("prog", 0, <<2, 7, 8>>), P("alarm", 1, <<3, 6>>), P("block", 2, <<4, 5>>), P("mark", 3, <<>>), P("end", 3, <<>>), P("mark", 2, <<>>),
+        P("mark", 1, <<>>), P("mark", 1, <<>>) >>,
+     \* 10: Watch(Watch(Mark), Mark); Mark; Mark                       a watch registered from a watch body
+     << P("prog", 0, <<2, 6, 7>>), P("watch", 1, <<3, 5>>), P("watch", 2, <<4>>), P("mark", 3, <<>>), P("mark", 2, <<>>), P("mark", 1, <<>>),
+        P("mark", 1, <<>>) >>,
+     \* 11: Block(Mark, End block, Mark, Mark); Mark                    lines after End block in the same block never run
+     << P("prog", 0, <<2, 7>>), P("block", 1, <<3, 4, 5, 6>>), P("mark", 2, <<>>), P("end", 2, <<>>), P("mark", 2, <<>>), P("mark", 2, <<>>),
+        P("mark", 1, <<>>) >>,
+     \* 12: Block(Alarm(Mark, End block), Mark, Mark, Mark); Mark       the alarm ends its own block
+     << P("prog", 0, <<2, 9>>), P("block", 1, <<3, 6, 7, 8>>), P("alarm", 2, <<4, 5>>), P("mark", 3, <<>>), P("end", 3, <<>>), P("mark", 2, <<>>),
+        P("mark", 2, <<>>), P("mark", 2, <<>>), P("mark", 1, <<>>) >>,
+     \* 13: Watch(Mark, Mark); Alarm(Mark); Watch(Mark); Mark           three interrupts in registration order
+     << P("prog", 0, <<2, 5, 7, 9>>), P("watch", 1, <<3, 4>>), P("mark", 2, <<>>), P("mark", 2, <<>>), P("alarm", 1, <<6>>), P("mark", 5, <<>>),
+        P("watch", 1, <<8>>), P("mark", 7, <<>>), P("mark", 1, <<>>) >>,
+     \* 14: Block(Block(Watch(End block), Mark, Mark, Mark), Mark, End block); Mark    a watch ends the inner of two blocks
+     << P("prog", 0, <<2, 11>>), P("block", 1, <<3, 9, 10>>), P("block", 2, <<4, 6, 7, 8>>), P("watch", 3, <<5>>), P("end", 4, <<>>),
+        P("mark", 3, <<>>), P("mark", 3, <<>>), P("mark", 3, <<>>), P("mark", 2, <<>>), P("end", 2, <<>>), P("mark", 1, <<>>) >>,
+     \* 15: Macro A(Mark, Mark); Call A; Call A; Mark                   a macro called twice
+     << P("prog", 0, <<2, 5, 6, 7>>), PN("macro", 1, <<3, 4>>, "A"), P("mark", 2, <<>>), P("mark", 2, <<>>), PN("call", 1, <<>>, "A"),
+        PN("call", 1, <<>>, "A"), P("mark", 1, <<>>) >>,
+     \* 16: Macro A(Mark); Call A; Macro A(Mark, Mark); Call A; Mark    the latest definition is the one that runs
+     << P("prog", 0, <<2, 4, 5, 8, 9>>), PN("macro", 1, <<3>>, "A"), P("mark", 2, <<>>), PN("call", 1, <<>>, "A"), PN("macro", 1, <<6, 7>>, "A"),
+        P("mark", 5, <<>>), P("mark", 5, <<>>), PN("call", 1, <<>>, "A"), P("mark", 1, <<>>) >>,
+     \* 17: Macro A(Mark, Call A); Call A; Mark; Mark                   direct recursion: the call fails
+     << P("prog", 0, <<2, 5, 6, 7>>), PN("macro", 1, <<3, 4>>, "A"), P("mark", 2, <<>>), PN("call", 2, <<>>, "A"), PN("call", 1, <<>>, "A"),
+        P("mark", 1, <<>>), P("mark", 1, <<>>) >>,
+     \* 18: Macro A(Mark, Call B); Macro B(Block(Call A, End block)); Call B; Mark      indirect recursion through a block
+     << P("prog", 0, <<2, 5, 9, 10>>), PN("macro", 1, <<3, 4>>, "A"), P("mark", 2, <<>>), PN("call", 2, <<>>, "B"), PN("macro", 1, <<6>>, "B"),
+        P("block", 5, <<7, 8>>), PN("call", 6, <<>>, "A"), P("end", 6, <<>>), PN("call", 1, <<>>, "B"), P("mark", 1, <<>>) >>,
+     \* 19: Call Z; Mark; Mark                                           undefined macro: the call fails
+     << P("prog", 0, <<2, 3, 4>>), PN("call", 1, <<>>, "Z"), P("mark", 1, <<>>), P("mark", 1, <<>>) >>,
+     \* 20: Macro A(Mark, Mark); Watch(Call A); Mark; Mark; Mark          a call from a watch body
+     << P("prog", 0, <<2, 5, 7, 8, 9>>), PN("macro", 1, <<3, 4>>, "A"), P("mark", 2, <<>>), P("mark", 2, <<>>), P("watch", 1, <<6>>),
+        PN("call", 5, <<>>, "A"), P("mark", 1, <<>>), P("mark", 1, <<>>), P("mark", 1, <<>>) >> >>
 
 VARIABLES prog,         \* index into Programs
           st,           \* the interpreter state (a record, see Fresh)
@@ -74,7 +110,10 @@ Fresh(p) == LET nn == 1..Len(Programs[p]) IN
      ipc |-> [n \in nn |-> "new"],     \* position of the node's interrupt visitor (Watch / Alarm)
      irq |-> <<>>,                     \* registered interrupts, in registration order
      tag |-> 0,                        \* the block the Block tag names (0 = none)
-     marks |-> <<>>, runs |-> [n \in nn |-> 0]]
+     marks |-> <<>>, runs |-> [n \in nn |-> 0],
+     failed |-> {}, halted |-> FALSE,   \* a failing instruction pauses the run at the end of its tick
+     defs |-> {},                      \* <<name, macro node>>: the definition registered last under each name
+     mstart |-> [n \in nn |-> 0], mdone |-> [n \in nn |-> 0]]     \* per macro: invocations started / completed
 
 InEnded(s, n) == \E a \in Anc(n) : Kind(a) = "block" /\ a \in s.ended
 LockedInner(s) == IF s.locked = {} THEN 0 ELSE CHOOSE b \in s.locked : \A c \in s.locked : Depth(c) <= Depth(b)
@@ -91,6 +130,19 @@ ResetTree(s, n) ==
               !.ipc = [x \in DOMAIN @ |-> IF x \in T THEN "new" ELSE @[x]]]
 
 Res(s, y) == [s |-> s, y |-> y]
+
+(* macros: the definition a name refers to, and whether calling `m` would (directly or through other calls in macro bodies,
+   also inside blocks, watches and alarms, but not inside nested definitions) reach the name again *)
+Lookup(s, name) == IF \E d \in s.defs : d[1] = name THEN (CHOOSE d \in s.defs : d[1] = name)[2] ELSE 0
+RECURSIVE BodyCalls(_)
+BodyCalls(n) == UNION {(IF Kind(Kids(n)[i]) = "call" THEN {Pr[Kids(n)[i]].name} ELSE {})
+                         \cup (IF Kind(Kids(n)[i]) = "macro" THEN {} ELSE BodyCalls(Kids(n)[i])) : i \in DOMAIN Kids(n)}
+RECURSIVE Reach(_, _, _)
+Reach(s, names, seen) ==       \* every macro name reachable from the calls `names`
+    LET new == names \ seen IN
+    IF new = {} THEN seen
+    ELSE Reach(s, UNION {IF Lookup(s, x) = 0 THEN {} ELSE BodyCalls(Lookup(s, x)) : x \in new}, seen \cup new)
+Recursive(s, m) == Pr[m].name \in Reach(s, BodyCalls(m), {})
 
 (* Advance the visit of node n (mode "m": main visitor position pc, mode "i": interrupt position ipc) until it yields the
    end of the tick ("end") or returns ("done"). *)
@@ -149,6 +201,24 @@ Go(s, n, mode, hi) ==
                    IF n \in s.ended
                    THEN Res(Set([s EXCEPT !.locked = @ \ {n}, !.completed = @ \cup {n}, !.kdone = @ \cup {n}], "fin"), "done")
                    ELSE Res(s, "end")
+      [] Kind(n) = "macro" ->
+              IF pos = "entered"
+              THEN Res(Set([s EXCEPT !.completed = @ \cup {n}, !.defs = {d \in @ : d[1] # Pr[n].name} \cup {<<Pr[n].name, n>>}], "fin"), "end")
+              ELSE Res(s, "done")
+      [] Kind(n) = "call" ->
+              IF pos = "entered"
+              THEN LET m == Lookup(s, Pr[n].name) IN
+                   IF m = 0 \/ Recursive(s, m)
+                   THEN Res(Set([s EXCEPT !.failed = @ \cup {n}], "fin"), "done")     \* fails; the visitor goes on within this tick
+                   ELSE LET t == IF s.mstart[m] <= s.mdone[m]
+                                 THEN [ResetTree(s, m) EXCEPT !.mstart[m] = @ + 1]
+                                 ELSE s
+                        IN Go(Set(t, "body"), n, mode, hi)
+              ELSE IF pos = "body"
+              THEN LET m == Lookup(s, Pr[n].name) r == RunKids(s, m, mode, hi) IN
+                   IF r.y = "end" THEN r
+                   ELSE Res(Set([r.s EXCEPT !.mdone[m] = @ + 1, !.completed = @ \cup {m, n}], "fin"), "end")
+              ELSE Res(s, "done")
       [] Kind(n) \in {"watch", "alarm"} /\ mode = "m" ->
               IF pos = "entered"
               THEN IF InEnded(s, n) THEN Res(s, "done")                          \* its block was ended meanwhile: not registered
@@ -181,7 +251,11 @@ RunIrqs(s, list, i, hi) ==
     IF i > Len(list) THEN s
     ELSE LET n == list[i] IN RunIrqs(Go(s, n, "i", hi).s, list, i + 1, hi)
 
-TickTo(s, hi) == LET a == Go(s, 1, "m", hi).s IN RunIrqs(a, a.irq, 1, hi)
+TickTo(s, hi) ==
+    IF s.halted THEN s                                       \* paused on error: the interpreter is not ticked
+    ELSE LET a == Go(s, 1, "m", hi).s
+             b == RunIrqs(a, a.irq, 1, hi)
+         IN [b EXCEPT !.halted = b.failed # {}]
 
 Init == prog \in DOMAIN Programs /\ st = Fresh(prog) /\ tickNo = 0 /\ hist = <<>>
 Tick(hi) == /\ tickNo < MaxTicks /\ st' = TickTo(st, hi) /\ tickNo' = tickNo + 1 /\ hist' = Append(hist, hi) /\ UNCHANGED prog
@@ -190,13 +264,16 @@ Spec == Init /\ [][Next]_vars
 
 -----------------------------------------------------------------------------
 (* C02 *)
-StartedBeforeCompleted == st.completed \subseteq st.started
+StartedBeforeCompleted == \A n \in st.completed : n \in st.started \/ Kind(n) = "macro"     \* (a called macro is reset, then marked completed)
 InOrder == \A n \in N : \A i, j \in DOMAIN Kids(n) :
-              (i < j /\ Kids(n)[j] \in st.started /\ Kind(n) # "alarm" /\ ~\E a \in Anc(n) \cup {n} : Kind(a) = "alarm")
-                 => (Kids(n)[i] \in st.completed \/ Kids(n)[i] \in st.registered \/ Kind(Kids(n)[i]) \in {"watch", "alarm"})
-ParentStarted == \A n \in st.started : Pr[n].parent = 0 \/ Pr[n].parent \in st.started
+              (i < j /\ Kids(n)[j] \in st.started /\ ~\E a \in Anc(n) \cup {n} : Kind(a) \in {"alarm", "macro"})
+                 => (Kids(n)[i] \in st.completed \/ Kids(n)[i] \in st.failed \/ Kind(Kids(n)[i]) \in {"watch", "alarm", "macro"})
+ParentStarted == \A n \in st.started : Pr[n].parent = 0 \/ Pr[n].parent \in st.started \/ Kind(Pr[n].parent) = "macro"
 MarksOnceOutsideAlarms ==
-    \A i, j \in DOMAIN st.marks : (i # j /\ st.marks[i] = st.marks[j]) => \E a \in Anc(st.marks[i]) : Kind(a) = "alarm"
+    \A i, j \in DOMAIN st.marks : (i # j /\ st.marks[i] = st.marks[j]) => \E a \in Anc(st.marks[i]) : Kind(a) \in {"alarm", "macro"}
+(* C41 *)
+MacroRunsOncePerCall == \A m \in N : Kind(m) = "macro" => st.mdone[m] <= st.mstart[m] /\ st.mstart[m] <= st.mdone[m] + 1
+RecursiveCallFails == \A n \in st.completed : Kind(n) = "call" => n \notin st.failed
 (* C04 *)
 BodyNeedsActivation == \A n \in st.started : (Pr[n].parent # 0 /\ Kind(Pr[n].parent) \in {"watch", "alarm"}) => Pr[n].parent \in st.activated
 NoBodyInEndedBlock == [][\A n \in N : (n \in st'.started /\ n \notin st.started /\ Kind(n) \notin {"watch", "alarm"}) => ~InEnded(st, n)]_vars
